@@ -17,7 +17,7 @@
 From Coq Require Import ZArith.
 From XV Require Import lib.Bytes lib.Xml lib.Schema C19.Form C19.Types C19.Model C19.Spec C19.ProofsLib
   C19.ProofsA C19.ProofsB C19.ProofsC C19.ProofsD C19.ProofsE C19.ProofsF C19.ProofsG
-  C19.ProofsForm1 C19.ProofsForm2 C19.ProofsForm3 C19.ProofsForm4 C19.ProofsH gen.Payloads C19.ProofsGen.
+  C19.ProofsForm1 C19.ProofsForm2 C19.ProofsForm3 C19.ProofsForm4 C19.ProofsH C19.ProofsS gen.Payloads C19.ProofsGen.
 
 (* ---- the constants of the models are those of the source (regenerated on every run) ---- *)
 
@@ -26,6 +26,12 @@ Theorem C19_tables_are_source :
   gen_pubsub_conditions = pubsub_conditions /\ gen_form_consts = model_form_consts /\ gen_reason_spam = reason_spam.
 Proof. exact tables_are_source. Qed.
 Print Assumptions C19_tables_are_source.
+
+Theorem C19_saslerr_tables_are_source :
+  gen_sasl_conditions = sasl_conditions /\ gen_sasl_index_len = (sasl_count + 1)%N /\ gen_sasl_ns = ns_sasl /\
+  gen_sasl_tr_check = (true, 0, 1)%N /\ gen_sasl_string_check = (0, 1)%N /\ gen_sasl_un_loop = (1, 2, 1)%N.
+Proof. exact sasl_tables_are_source. Qed.
+Print Assumptions C19_saslerr_tables_are_source.
 
 (* ---- generic ---- *)
 
@@ -408,6 +414,40 @@ Print Assumptions C19_tzo_parse_format_minutes.
 Theorem C19_xtime_tzo_premise : forall o t, tzo_parse_agrees o -> (-86400 < t_off t < 86400)%Z -> tzo_roundtrip o t.
 Proof. exact tzo_roundtrip_from_agreement. Qed.
 Print Assumptions C19_xtime_tzo_premise.
+
+(* ---- internal/saslerr: the SASL failure payload ---- *)
+
+(* for EVERY condition value (a uint16; defined: 1..11) and every text and language: one failure
+   element, read back from both paths as the normalised value (an undefined condition is not
+   written and comes back as ConditionNone; the language exists only with a text) *)
+Theorem C19_saslerr_roundtrip : roundtrip saslerr_c any saslerr_norm.
+Proof. exact saslerr_roundtrip. Qed.
+Print Assumptions C19_saslerr_roundtrip.
+Theorem C19_saslerr_wellformed : wellformed saslerr_c sasl_els sasl_ats.
+Proof. exact saslerr_wellformed. Qed.
+Print Assumptions C19_saslerr_wellformed.
+Theorem C19_saslerr_unmarshal_total : dec_total saslerr_c.
+Proof. exact saslerr_dec_total. Qed.
+Print Assumptions C19_saslerr_unmarshal_total.
+
+(* Condition on its own: a defined condition is one element that reads back; ConditionNone and
+   every value at or beyond the table (12, ..., 65535) write no token at all *)
+Theorem C19_saslerr_condition_roundtrip : forall o c,
+  match sasl_name c with
+  | Some n => exists t, c_enc scond_c o c = Ok [t] /\ c_dec scond_c o t = Ok c /\ c_dec scond_c o (wire1 t) = Ok c
+  | None => c_enc scond_c o c = Ok []
+  end.
+Proof. exact scond_roundtrip. Qed.
+Print Assumptions C19_saslerr_condition_roundtrip.
+Theorem C19_saslerr_condition_undefined : forall c, (c = 0 \/ 12 <= c)%N -> sasl_name c = None.
+Proof. exact scond_undefined. Qed.
+Print Assumptions C19_saslerr_condition_undefined.
+Theorem C19_saslerr_condition_wellformed : wellformed scond_c sasl_els sasl_ats.
+Proof. exact scond_wellformed. Qed.
+Print Assumptions C19_saslerr_condition_wellformed.
+Theorem C19_saslerr_condition_unmarshal_total : dec_total scond_c.
+Proof. exact scond_dec_total. Qed.
+Print Assumptions C19_saslerr_condition_unmarshal_total.
 
 (* ---- special cases ---- *)
 
